@@ -7,7 +7,7 @@ NOTE = ('static analysis of the current source; trusted base: clang 14 front end
 CLAIMED = {
     'C01': {'technique': 'table-vs-architecture-manual oracle + symbolic bit-provenance of encoder/decoder (static)',
             'level': 'exhaustive over the enumerated rule instances (T-ORACLE rows/formats for RV32I and MSP430 core, the opcode maps of the '
-                     'NMOS 6502 (151 opcodes) and the MCS-51 (255 opcodes), T-LEN per CPU, T-CPU rows); narrow: encodings of the four oracle ISAs '
+                     'NMOS 6502 (151 opcodes), the MCS-51 (255 opcodes), the Intel 4004 (45 rows) and the RCA 1802 (79 rows), T-LEN per CPU, T-CPU rows); narrow: encodings of the six oracle ISAs '
                      'and length agreement only',
             'note': NOTE},
     'C02': {'technique': 'CFG must-pass-through between the two passes, store-set comparison (written while assembling vs reset by init())',
